@@ -87,8 +87,13 @@ class Reader(typing.Generic[parsmod.Source, parsmod.Feature, laymod.Native], met
             if not complete:
                 # here we would go into augmentation mode - when implemented
                 raise forml.MissingError('Augmentation not supported - please provide all features')
-            data = entry.data.take_columns(indices) if indices else entry.data
-            return self._cast(statement.schema, entry.schema, data)
+            if indices:
+                # keep the entry fields aligned with the re-ordered columns
+                fields = tuple(entry.schema)
+                actual, data = tuple(fields[i] for i in indices), entry.data.take_columns(indices)
+            else:
+                actual, data = entry.schema, entry.data
+            return self._cast(statement.schema, actual, data)
 
         parsed = self._parse_statement(statement)
         LOGGER.debug('Starting ETL read using: %s', parsed)
@@ -96,13 +101,16 @@ class Reader(typing.Generic[parsmod.Source, parsmod.Feature, laymod.Native], met
 
     @classmethod
     def _cast(
-        cls, expected: 'dsl.Source.Schema', actual: 'dsl.Source.Schema', data: 'layout.Tabular'
+        cls,
+        expected: 'dsl.Source.Schema',
+        actual: typing.Union['dsl.Source.Schema', typing.Sequence['dsl.Field']],
+        data: 'layout.Tabular',
     ) -> 'layout.Tabular':
         """Helper for attempting to cast the data to the expected schema.
 
         Args:
             expected: Target schema.
-            actual: Source schema.
+            actual: Source schema (or just its fields) positionally matching the data columns.
             data: Dataset to cast.
 
         Returns:
